@@ -1,6 +1,9 @@
-(** C13: conservation (the multiset equation pushed = returned + remaining, per list) and
-    absence of the wake-up crash, for the histories of list commands ([reach_cons] of
-    Spec/BlockingSpec.v). *)
+(** C13: conservation (the multiset equation pushed = returned + remaining, per list) for the
+    histories of list commands ([reach_g] of Spec/BlockingSpec.v): any requests from the list
+    catalogue, clients going away at any time - blocked or not -, wake-ups, timeouts.  No command
+    of the catalogue gives a key a deadline, so lazy expiry never removes anything in these
+    histories: that is part of the invariant ([NOEXPd], theorem [no_deadlines]), not an
+    assumption. *)
 From Ferrous Require Import Base.Bytes Generated Model.Resp Model.Types Model.Strings Model.Lists
   Model.Server Model.Blocking Spec.BlockingSpec Proofs.BytesFacts Proofs.StringsFacts Proofs.ServerFacts
   Proofs.GroupFacts Proofs.BlockingFacts.
@@ -83,6 +86,53 @@ Qed.
 Lemma keep_view d k f : (forall cur, snd (f cur) = Keep) -> snd (on_key d k f) = d.
 Proof. intros H. unfold on_key. specialize (H (option_map e_val (get_entry d k))). destruct (f _) as [r u]. cbn [snd] in *. subst. reflexivity. Qed.
 
+(** ================= no deadlines: lazy expiry removes nothing ================= *)
+Definition NOEXPd (d : db) : Prop := d_index d = [] /\ forall k e, get_entry d k = Some e -> e_exp e = None.
+Lemma noexp_on_key d k f : NOEXPd d -> NOEXPd (snd (on_key d k f)).
+Proof.
+  intros [H1 H2]. unfold on_key. destruct (f (option_map e_val (get_entry d k))) as [r u]. cbn [snd].
+  destruct u; cbn [apply_upd].
+  - split; assumption.
+  - split; [exact H1|]. intros k' e He. destruct (beq k' k) eqn:Ek.
+    + apply beq_eq in Ek. subst k'. rewrite get_entry_put_same in He. injection He as <-. cbn [e_exp].
+      destruct (get_entry d k) as [e0|] eqn:E0; [eapply H2; exact E0|reflexivity].
+    + rewrite get_entry_put_other in He by exact Ek. eapply H2; exact He.
+  - split; [exact H1|]. intros k' e He. destruct (beq k' k) eqn:Ek.
+    + apply beq_eq in Ek. subst k'. rewrite get_entry_del_same in He. discriminate.
+    + rewrite get_entry_del_other in He by exact Ek. eapply H2; exact He.
+Qed.
+Lemma purge_noexp now d k acc : NOEXPd d -> purge_key now (d, acc) k = (d, acc).
+Proof.
+  intros [_ H2]. unfold purge_key. cbn [fst snd]. destruct (get_entry d k) as [e|] eqn:E; [|reflexivity].
+  unfold expired. rewrite (H2 _ _ E). reflexivity.
+Qed.
+Lemma expire_before_noexp now d name parts : NOEXPd d -> expire_before now d name parts = (d, []).
+Proof.
+  intros HN. unfold expire_before. cbv zeta.
+  assert (F : forall l acc, fold_left (purge_key now) l (d, acc) = (d, acc)).
+  { induction l as [|k l IH]; intros acc; cbn [fold_left]; [reflexivity|]. rewrite purge_noexp by exact HN. apply IH. }
+  assert (E : (if lazy_expires_every_arg then fold_left (purge_key now) (lazy_args parts) (d, []) else (d, [])) = (d, [])).
+  { destruct lazy_expires_every_arg; [apply F|reflexivity]. }
+  rewrite E. destruct (bmem name lazy_keyspace_commands); [|reflexivity].
+  unfold purge_due, due_keys. cbn [fst]. rewrite (proj1 HN). reflexivity.
+Qed.
+Lemma list_set_nth_id {A} (dflt : A) : forall l i, list_set l i (nth i l dflt) = l.
+Proof. induction l as [|y l IH]; intros [|i]; cbn [list_set nth]; try reflexivity. rewrite IH. reflexivity. Qed.
+Lemma lazy_expire_noexp now s dbi name parts : NOEXPd (get_db s dbi) ->
+  s_dbs (lazy_expire now s dbi name parts) = s_dbs s.
+Proof.
+  intros HN. unfold lazy_expire. destruct lazy_expiry_before_dispatch; [|reflexivity].
+  rewrite expire_before_noexp by exact HN. cbn [set_trk set_db s_dbs]. unfold get_db. apply list_set_nth_id.
+Qed.
+Lemma normal_command_noexp now s c dbi nm rest o : NOEXPd (get_db s dbi) ->
+  exists s1, normal_command now s c dbi (FBulk nm :: rest) o = dispatch_command now s1 c dbi (FBulk nm :: rest) o
+    /\ s_dbs s1 = s_dbs s /\ s_conns s1 = s_conns s /\ s_password s1 = s_password s.
+Proof.
+  intros HN. exists (lazy_expire now s dbi (upper nm) (FBulk nm :: rest)). split; [reflexivity|].
+  split; [apply lazy_expire_noexp; exact HN|].
+  destruct (lazy_expire_rest now s dbi (upper nm) (FBulk nm :: rest)) as (L1 & L2 & _). split; assumption.
+Qed.
+
 (** ================= the list commands through exec_db ================= *)
 Lemma exec_db_lpush now d parts o : exec_db now d (bs "LPUSH") parts o = Some (h_push true d parts).
 Proof. reflexivity. Qed.
@@ -103,24 +153,37 @@ Definition special_names : list bytes :=
   [bs "PING"; bs "ECHO"; bs "SELECT"; bs "FLUSHALL"; bs "RANDOMKEY"; bs "AUTH"; bs "QUIT"; bs "VERIF"].
 (** a command that process_normal_command hands to the storage commands: reply and database
     from exec_db, connections untouched *)
-Lemma nc_via_exec_db now s c dbi nm rest o r d' :
+Lemma dc_via_exec_db now s c dbi nm rest o r d' :
   forallb (fun sp => negb (beq (upper nm) sp)) special_names = true ->
   exec_db now (get_db s dbi) (upper nm) (FBulk nm :: rest) o = Some (r, d') ->
-  exists s', normal_command now s c dbi (FBulk nm :: rest) o = (r, s')
+  exists s', dispatch_command now s c dbi (FBulk nm :: rest) o = (r, s')
     /\ s_conns s' = s_conns s /\ s_password s' = s_password s
     /\ s_dbs s' = list_set (s_dbs s) (Z.to_nat dbi) d'.
 Proof.
   intros Hsp He. unfold special_names in Hsp. cbn [forallb] in Hsp.
   repeat (apply andb_true_iff in Hsp; destruct Hsp as [?H Hsp]).
   repeat match goal with H : negb _ = true |- _ => apply negb_true_iff in H end.
-  unfold normal_command.
-  set (s0 := if logs_before (upper nm) (FBulk nm :: rest) then log_aof_in s dbi (FBulk nm :: rest) else s).
-  assert (Hd : get_db s0 dbi = get_db s dbi) by (unfold s0; destruct (logs_before (upper nm) (FBulk nm :: rest)); [unfold log_aof_in; destruct (same_db _ _)|]; reflexivity).
-  assert (Hc : s_conns s0 = s_conns s) by (unfold s0; destruct (logs_before (upper nm) (FBulk nm :: rest)); [unfold log_aof_in; destruct (same_db _ _)|]; reflexivity).
-  assert (Hp : s_password s0 = s_password s) by (unfold s0; destruct (logs_before (upper nm) (FBulk nm :: rest)); [unfold log_aof_in; destruct (same_db _ _)|]; reflexivity).
-  assert (Hl : s_dbs s0 = s_dbs s) by (unfold s0; destruct (logs_before (upper nm) (FBulk nm :: rest)); [unfold log_aof_in; destruct (same_db _ _)|]; reflexivity).
+  unfold dispatch_command.
+  set (s0 := if mem_name (upper nm) write_commands then log_aof_in s dbi (FBulk nm :: rest) else s).
+  assert (Hd : get_db s0 dbi = get_db s dbi) by (unfold s0; destruct (mem_name (upper nm) write_commands); [unfold log_aof_in; destruct (same_db _ _)|]; reflexivity).
+  assert (Hc : s_conns s0 = s_conns s) by (unfold s0; destruct (mem_name (upper nm) write_commands); [unfold log_aof_in; destruct (same_db _ _)|]; reflexivity).
+  assert (Hp : s_password s0 = s_password s) by (unfold s0; destruct (mem_name (upper nm) write_commands); [unfold log_aof_in; destruct (same_db _ _)|]; reflexivity).
+  assert (Hl : s_dbs s0 = s_dbs s) by (unfold s0; destruct (mem_name (upper nm) write_commands); [unfold log_aof_in; destruct (same_db _ _)|]; reflexivity).
   rewrite H, H0, H1, H2, H3, H4, H5, H6. rewrite Hd, He.
   eexists. split; [reflexivity|]. cbn [set_trk set_db s_conns s_password s_dbs]. rewrite Hl. repeat split; assumption.
+Qed.
+Lemma nc_via_exec_db now s c dbi nm rest o r d' :
+  NOEXPd (get_db s dbi) ->
+  forallb (fun sp => negb (beq (upper nm) sp)) special_names = true ->
+  exec_db now (get_db s dbi) (upper nm) (FBulk nm :: rest) o = Some (r, d') ->
+  exists s', normal_command now s c dbi (FBulk nm :: rest) o = (r, s')
+    /\ s_conns s' = s_conns s /\ s_password s' = s_password s
+    /\ s_dbs s' = list_set (s_dbs s) (Z.to_nat dbi) d'.
+Proof.
+  intros HN Hsp He. destruct (normal_command_noexp now s c dbi nm rest o HN) as (s1 & E & D1 & D2 & D3).
+  assert (Hg : get_db s1 dbi = get_db s dbi) by (unfold get_db; rewrite D1; reflexivity).
+  rewrite <- Hg in He. destruct (dc_via_exec_db now s1 c dbi nm rest o r d' Hsp He) as (s' & H1 & H2 & H3 & H4).
+  exists s'. rewrite E. split; [exact H1|]. rewrite H2, H3, H4, D1, D2, D3. repeat split; reflexivity.
 Qed.
 
 (** ================= counting =================
@@ -235,7 +298,12 @@ Proof.
 Qed.
 
 (** ================= handlers on a database whose keys all hold lists ================= *)
-Definition ALLd (d : db) : Prop := forall k, lview d k <> None.
+Definition ALLd (d : db) : Prop := (forall k, lview d k <> None) /\ NOEXPd d.
+Lemma ALLd_on_key d k f : ALLd d -> lview (snd (on_key d k f)) k <> None -> ALLd (snd (on_key d k f)).
+Proof.
+  intros [H1 H2] Hk. split; [|apply noexp_on_key; exact H2].
+  intros k'. destruct (beq k' k) eqn:Ek; [apply beq_eq in Ek; subst; exact Hk|rewrite lview_on_key_other by exact Ek; apply H1].
+Qed.
 Lemma all_bulks_bulk_args : forall l els, all_bulks l = Some els -> bulk_args l = els.
 Proof.
   induction l as [|f l IH]; intros els H; cbn [all_bulks bulk_args] in *; [injection H as <-; reflexivity|].
@@ -259,14 +327,12 @@ Proof.
   unfold key_of, nth_arg in H. cbn [nth_error] in H. destruct rest as [|kf els]; [eapply (Same r_err); [auto|exact I|exact H]|].
   cbn [nth_error arg_bytes] in H. destruct kf as [| | |k| | | | | | | | |]; try (eapply (Same r_err); [auto|exact I|exact H]).
   cbn [skipn arg_bytes] in H. destruct (all_bulks els) as [els'|] eqn:Eb; [|eapply (Same r_err); [auto|exact I|exact H]].
-  destruct (lview d k) as [l|] eqn:El; [|exfalso; exact (HA k El)].
+  destruct (lview d k) as [l|] eqn:El; [|exfalso; exact (proj1 HA k El)].
   pose proof (push_view left els' d k l El) as Hp. cbv zeta in Hp. destruct Hp as [Hp1 Hp2].
   assert (E1 : r = fst (on_key d k (e_push left els'))) by (rewrite H; reflexivity).
   assert (E2 : d' = snd (on_key d k (e_push left els'))) by (rewrite H; reflexivity).
   split.
-  - intros k'. subst d'. destruct (beq k' k) eqn:Ek.
-    + apply beq_eq in Ek. subst k'. rewrite Hp2. discriminate.
-    + rewrite lview_on_key_other by exact Ek. apply HA.
+  - subst d'. apply ALLd_on_key; [exact HA|rewrite Hp2; discriminate].
   - intros k' x. subst r. rewrite Hp1. unfold pushed_of. rewrite Hn, (all_bulks_bulk_args _ _ Eb), ecount_tag, Z.eqb_refl. cbn [andb].
     subst d'. destruct (beq k' k) eqn:Ek.
     + apply beq_eq in Ek. subst k'. rewrite (lst_view _ _ _ Hp2), (lst_view _ _ _ El).
@@ -285,19 +351,19 @@ Lemma on_key_pop_delta left d k dbi :
   ALLd d' /\ (match r with FBulk _ | FNullBulk => True | _ => False end) /\
   forall k' x, occm x (lst d' k') + ecountm (dbi, k', x) (match r with FBulk v => [(dbi, k, v)] | _ => [] end) = occm x (lst d k').
 Proof.
-  intros HA. cbv zeta. destruct (lview d k) as [l|] eqn:El; [|exfalso; exact (HA k El)].
+  intros HA. cbv zeta. destruct (lview d k) as [l|] eqn:El; [|exfalso; exact (proj1 HA k El)].
   pose proof (pop_view left d k l El) as Hp.
   assert (Hoth : forall k', beq k' k = false -> lview (snd (on_key d k (e_pop left))) k' = lview d k')
     by (intros k' Hk; apply lview_on_key_other; exact Hk).
   destruct (if left then l else rev l) as [|v t] eqn:Ev; destruct Hp as [Hp1 Hp2]; rewrite Hp1.
   - split; [|split; [exact I|]].
-    + intros k'. destruct (beq k' k) eqn:Ek; [apply beq_eq in Ek; subst; rewrite Hp2; discriminate|rewrite Hoth by exact Ek; apply HA].
+    + apply ALLd_on_key; [exact HA|rewrite Hp2; discriminate].
     + intros k' x. cbn [r_nil]. rewrite ecount_nil. destruct (beq k' k) eqn:Ek.
       * apply beq_eq in Ek. subst k'. rewrite (lst_view _ _ _ Hp2), (lst_view _ _ _ El).
         assert (l = []) by (destruct left; [exact Ev|apply rev_nil_inv; exact Ev]). subst l. reflexivity.
       * unfold lst. rewrite Hoth by exact Ek. lia.
   - split; [|split; [exact I|]].
-    + intros k'. destruct (beq k' k) eqn:Ek; [apply beq_eq in Ek; subst; rewrite Hp2; discriminate|rewrite Hoth by exact Ek; apply HA].
+    + apply ALLd_on_key; [exact HA|rewrite Hp2; discriminate].
     + intros k' x. rewrite ecount_cons, ecount_nil, elem_eqb_spec, Z.eqb_refl. cbn [andb]. destruct (beq k' k) eqn:Ek.
       * apply beq_eq in Ek. subst k'. rewrite (lst_view _ _ _ Hp2), (lst_view _ _ _ El). cbn [andb].
         destruct left.
@@ -398,74 +464,135 @@ Qed.
 
 (** process_normal_command + the blocking manager, for a command handed to exec_db *)
 Lemma bnormal_exec_db now s b c dbi nm rest oms r d' :
+  NOEXPd (get_db s dbi) ->
   forallb (fun sp => negb (beq (upper nm) sp)) special_names = true ->
-  bpop_parts (FBulk nm :: rest) = false ->
+  bpop_parts (FBulk nm :: rest) = false -> beq (upper nm) (bs "EVAL") = false ->
   exec_db now (get_db s dbi) (upper nm) (FBulk nm :: rest) None = Some (r, d') ->
   exists s', bnormal now s b c dbi (FBulk nm :: rest) None oms = (r, s', notify_after_push b dbi (upper nm) (FBulk nm :: rest) r)
     /\ s_conns s' = s_conns s /\ s_password s' = s_password s /\ s_dbs s' = list_set (s_dbs s) (Z.to_nat dbi) d'.
 Proof.
-  intros Hsp Hb He. rewrite bpop_parts_names in Hb. apply orb_false_iff in Hb. destruct Hb as [Hb1 Hb2].
-  destruct (nc_via_exec_db now s c dbi nm rest None r d' Hsp He) as (s' & H1 & H2 & H3 & H4).
-  exists s'. unfold bnormal. rewrite Hb1, Hb2, H1. repeat split; assumption.
+  intros HN Hsp Hb Hev He. rewrite bpop_parts_names in Hb. apply orb_false_iff in Hb. destruct Hb as [Hb1 Hb2].
+  destruct (nc_via_exec_db now s c dbi nm rest None r d' HN Hsp He) as (s' & H1 & H2 & H3 & H4).
+  exists s'. unfold bnormal. rewrite Hb1, Hb2, H1, Hev. repeat split; assumption.
 Qed.
 (** ... and for a name exec_db does not know: an error, nothing changes *)
-Lemma bnormal_unknown now s b c dbi nm rest oms :
+Lemma dc_unknown now s c dbi nm rest :
   forallb (fun sp => negb (beq (upper nm) sp)) special_names = true ->
-  bpop_parts (FBulk nm :: rest) = false -> is_push_name (upper nm) = false ->
+  exec_db now (get_db s dbi) (upper nm) (FBulk nm :: rest) None = None ->
+  exists r s', dispatch_command now s c dbi (FBulk nm :: rest) None = (r, s')
+    /\ s_conns s' = s_conns s /\ s_password s' = s_password s /\ s_dbs s' = s_dbs s.
+Proof.
+  intros Hsp He.
+  unfold special_names in Hsp. cbn [forallb] in Hsp.
+  repeat (apply andb_true_iff in Hsp; destruct Hsp as [?H Hsp]).
+  repeat match goal with H : negb _ = true |- _ => apply negb_true_iff in H end.
+  unfold dispatch_command.
+  set (s0 := if mem_name (upper nm) write_commands then log_aof_in s dbi (FBulk nm :: rest) else s).
+  assert (Hd : get_db s0 dbi = get_db s dbi) by (unfold s0; destruct (mem_name (upper nm) write_commands); [unfold log_aof_in; destruct (same_db _ _)|]; reflexivity).
+  assert (Hc : s_conns s0 = s_conns s) by (unfold s0; destruct (mem_name (upper nm) write_commands); [unfold log_aof_in; destruct (same_db _ _)|]; reflexivity).
+  assert (Hp : s_password s0 = s_password s) by (unfold s0; destruct (mem_name (upper nm) write_commands); [unfold log_aof_in; destruct (same_db _ _)|]; reflexivity).
+  assert (Hl : s_dbs s0 = s_dbs s) by (unfold s0; destruct (mem_name (upper nm) write_commands); [unfold log_aof_in; destruct (same_db _ _)|]; reflexivity).
+  rewrite H, H0, H1, H2, H3, H4, H5, H6. rewrite Hd, He.
+  eexists. exists s0. split; [reflexivity|]. repeat split; assumption.
+Qed.
+Lemma bnormal_unknown now s b c dbi nm rest oms :
+  NOEXPd (get_db s dbi) ->
+  forallb (fun sp => negb (beq (upper nm) sp)) special_names = true ->
+  bpop_parts (FBulk nm :: rest) = false -> is_push_name (upper nm) = false -> beq (upper nm) (bs "EVAL") = false ->
   exec_db now (get_db s dbi) (upper nm) (FBulk nm :: rest) None = None ->
   exists r s', bnormal now s b c dbi (FBulk nm :: rest) None oms = (r, s', b)
     /\ s_conns s' = s_conns s /\ s_password s' = s_password s /\ s_dbs s' = s_dbs s.
 Proof.
-  intros Hsp Hb Hpn He. rewrite bpop_parts_names in Hb. apply orb_false_iff in Hb. destruct Hb as [Hb1 Hb2].
-  unfold special_names in Hsp. cbn [forallb] in Hsp.
-  repeat (apply andb_true_iff in Hsp; destruct Hsp as [?H Hsp]).
-  repeat match goal with H : negb _ = true |- _ => apply negb_true_iff in H end.
-  unfold bnormal. rewrite Hb1, Hb2. unfold normal_command.
-  set (s0 := if logs_before (upper nm) (FBulk nm :: rest) then log_aof_in s dbi (FBulk nm :: rest) else s).
-  assert (Hd : get_db s0 dbi = get_db s dbi) by (unfold s0; destruct (logs_before (upper nm) (FBulk nm :: rest)); [unfold log_aof_in; destruct (same_db _ _)|]; reflexivity).
-  assert (Hc : s_conns s0 = s_conns s) by (unfold s0; destruct (logs_before (upper nm) (FBulk nm :: rest)); [unfold log_aof_in; destruct (same_db _ _)|]; reflexivity).
-  assert (Hp : s_password s0 = s_password s) by (unfold s0; destruct (logs_before (upper nm) (FBulk nm :: rest)); [unfold log_aof_in; destruct (same_db _ _)|]; reflexivity).
-  assert (Hl : s_dbs s0 = s_dbs s) by (unfold s0; destruct (logs_before (upper nm) (FBulk nm :: rest)); [unfold log_aof_in; destruct (same_db _ _)|]; reflexivity).
-  rewrite H, H0, H1, H2, H3, H4, H5, H6. rewrite Hd, He.
-  eexists. exists s0. split; [|repeat split; assumption].
-  unfold notify_after_push. rewrite Hpn. reflexivity.
+  intros HN Hsp Hb Hpn Hev He. rewrite bpop_parts_names in Hb. apply orb_false_iff in Hb. destruct Hb as [Hb1 Hb2].
+  destruct (normal_command_noexp now s c dbi nm rest None HN) as (s1 & E & D1 & D2 & D3).
+  assert (Hg : get_db s1 dbi = get_db s dbi) by (unfold get_db; rewrite D1; reflexivity).
+  rewrite <- Hg in He. destruct (dc_unknown now s1 c dbi nm rest Hsp He) as (r & s' & H1 & H2 & H3 & H4).
+  exists r, s'. unfold bnormal. rewrite Hb1, Hb2, E, H1, Hev. cbv zeta.
+  split; [unfold notify_after_push; rewrite Hpn; reflexivity|].
+  rewrite H2, H3, H4, D1, D2, D3. repeat split; reflexivity.
 Qed.
 
 (** PING and SELECT are answered by process_normal_command itself *)
 Lemma nc_ping now s c dbi nm rest o r s' :
+  NOEXPd (get_db s dbi) ->
   beq (upper nm) (bs "PING") = true -> normal_command now s c dbi (FBulk nm :: rest) o = (r, s') ->
   s_dbs s' = s_dbs s /\ s_conns s' = s_conns s /\ s_password s' = s_password s.
 Proof.
-  intros Hp H. unfold normal_command in H. rewrite Hp in H.
-  destruct (logs_before (upper nm) (FBulk nm :: rest)); injection H as _ <-; repeat split; reflexivity.
+  intros HN Hp H. destruct (normal_command_noexp now s c dbi nm rest o HN) as (s1 & E & D1 & D2 & D3).
+  rewrite E in H. unfold dispatch_command in H. rewrite Hp in H.
+  destruct (mem_name (upper nm) write_commands); [unfold log_aof_in in H; destruct (same_db _ _)|]; injection H as _ <-;
+    cbn [s_dbs s_conns s_password]; repeat split; assumption.
+Qed.
+Lemma dc_select now s c dbi nm rest o r s' :
+  beq (upper nm) (bs "PING") = false -> beq (upper nm) (bs "ECHO") = false -> beq (upper nm) (bs "SELECT") = true ->
+  dispatch_command now s c dbi (FBulk nm :: rest) o = (r, s') ->
+  s_dbs s' = s_dbs s /\ s_password s' = s_password s /\
+  (forall c' cn', zlookup c' (s_conns s') = Some cn' ->
+    exists cn, zlookup c' (s_conns s) = Some cn /\ c_queue cn' = c_queue cn /\ (c_db cn' = c_db cn \/ 0 <= c_db cn' < 16)) /\
+  (forall cn, zlookup c (s_conns s) = Some cn ->
+    exists cn', zlookup c (s_conns s') = Some cn' /\ c_db cn' = next_db (c_db cn) (FBulk nm :: rest) r).
+Proof.
+  intros H1 H2 H3 H. unfold dispatch_command in H. rewrite H1, H2, H3 in H.
+  set (s0 := if mem_name (upper nm) write_commands then log_aof_in s dbi (FBulk nm :: rest) else s) in *.
+  assert (Hc : s_conns s0 = s_conns s) by (unfold s0; destruct (mem_name (upper nm) write_commands); [unfold log_aof_in; destruct (same_db _ _)|]; reflexivity).
+  assert (Hp : s_password s0 = s_password s) by (unfold s0; destruct (mem_name (upper nm) write_commands); [unfold log_aof_in; destruct (same_db _ _)|]; reflexivity).
+  assert (Hl : s_dbs s0 = s_dbs s) by (unfold s0; destruct (mem_name (upper nm) write_commands); [unfold log_aof_in; destruct (same_db _ _)|]; reflexivity).
+  assert (Keep : forall c' cn', zlookup c' (s_conns s0) = Some cn' ->
+            exists cn, zlookup c' (s_conns s) = Some cn /\ c_queue cn' = c_queue cn /\ (c_db cn' = c_db cn \/ 0 <= c_db cn' < 16)).
+  { intros c' cn' Hc'. rewrite Hc in Hc'. exists cn'. split; [exact Hc'|]. split; [reflexivity|left; reflexivity]. }
+  assert (Same : forall r0, is_ok r0 = false -> (r0, s0) = (r, s') ->
+            s_dbs s' = s_dbs s /\ s_password s' = s_password s /\
+            (forall c' cn', zlookup c' (s_conns s') = Some cn' ->
+               exists cn, zlookup c' (s_conns s) = Some cn /\ c_queue cn' = c_queue cn /\ (c_db cn' = c_db cn \/ 0 <= c_db cn' < 16)) /\
+            (forall cn, zlookup c (s_conns s) = Some cn ->
+               exists cn', zlookup c (s_conns s') = Some cn' /\ c_db cn' = next_db (c_db cn) (FBulk nm :: rest) r)).
+  { intros r0 Hr0 E. injection E as <- <-. split; [exact Hl|]. split; [exact Hp|]. split; [exact Keep|].
+    intros cn Hcn. exists cn. rewrite Hc. split; [exact Hcn|]. unfold next_db.
+    destruct rest as [|a0 [|? ?]]; try reflexivity; destruct a0; try reflexivity. rewrite Hr0, andb_false_r. reflexivity. }
+  destruct rest as [|a [|? ?]].
+  1:{ eapply Same; [|exact H]; reflexivity. }
+  2:{ destruct a; (eapply Same; [|exact H]; reflexivity). }
+  destruct a; try (eapply Same; [|exact H]; reflexivity).
+  destruct (parse_usize b) as [n|] eqn:En; [|eapply Same; [|exact H]; reflexivity].
+  destruct (16 <=? n) eqn:E16; [eapply Same; [|exact H]; reflexivity|].
+  destruct (zlookup c (s_conns s0)) as [cn|] eqn:Ec.
+  2:{ injection H as <- <-. split; [exact Hl|]. split; [exact Hp|]. split; [exact Keep|].
+      intros cn Hcn. rewrite Hc in Ec. congruence. }
+  injection H as <- <-. cbn [set_conn s_dbs s_password s_conns]. split; [exact Hl|]. split; [exact Hp|]. split.
+  - intros c' cn' Hc'. destruct (Z.eq_dec c' c) as [->|Hne].
+    + rewrite zlookup_zset_same in Hc'. injection Hc' as <-. rewrite Hc in Ec. exists cn. split; [exact Ec|]. split; [reflexivity|].
+      right. cbn [c_db]. pose proof (parse_usize_nonneg _ _ En). lia.
+    + rewrite zlookup_zset_other in Hc' by exact Hne. apply Keep. exact Hc'.
+  - intros cn0 Hcn0. eexists. rewrite zlookup_zset_same. split; [reflexivity|]. cbn [c_db]. unfold next_db.
+    rewrite H3, En. reflexivity.
 Qed.
 Lemma nc_select now s c dbi nm rest o r s' :
+  NOEXPd (get_db s dbi) ->
   beq (upper nm) (bs "PING") = false -> beq (upper nm) (bs "ECHO") = false -> beq (upper nm) (bs "SELECT") = true ->
   normal_command now s c dbi (FBulk nm :: rest) o = (r, s') ->
   s_dbs s' = s_dbs s /\ s_password s' = s_password s /\
-  forall c' cn', zlookup c' (s_conns s') = Some cn' ->
-    exists cn, zlookup c' (s_conns s) = Some cn /\ c_queue cn' = c_queue cn /\ (c_db cn' = c_db cn \/ 0 <= c_db cn' < 16).
+  (forall c' cn', zlookup c' (s_conns s') = Some cn' ->
+    exists cn, zlookup c' (s_conns s) = Some cn /\ c_queue cn' = c_queue cn /\ (c_db cn' = c_db cn \/ 0 <= c_db cn' < 16)) /\
+  (forall cn, zlookup c (s_conns s) = Some cn ->
+    exists cn', zlookup c (s_conns s') = Some cn' /\ c_db cn' = next_db (c_db cn) (FBulk nm :: rest) r).
 Proof.
-  intros H1 H2 H3 H. unfold normal_command in H. rewrite H1, H2, H3 in H.
-  set (s0 := if logs_before (upper nm) (FBulk nm :: rest) then log_aof_in s dbi (FBulk nm :: rest) else s) in *.
-  assert (Hc : s_conns s0 = s_conns s) by (unfold s0; destruct (logs_before (upper nm) (FBulk nm :: rest)); [unfold log_aof_in; destruct (same_db _ _)|]; reflexivity).
-  assert (Hp : s_password s0 = s_password s) by (unfold s0; destruct (logs_before (upper nm) (FBulk nm :: rest)); [unfold log_aof_in; destruct (same_db _ _)|]; reflexivity).
-  assert (Hl : s_dbs s0 = s_dbs s) by (unfold s0; destruct (logs_before (upper nm) (FBulk nm :: rest)); [unfold log_aof_in; destruct (same_db _ _)|]; reflexivity).
-  assert (Same : forall r0, (r0, s0) = (r, s') -> s_dbs s' = s_dbs s /\ s_password s' = s_password s /\
-            forall c' cn', zlookup c' (s_conns s') = Some cn' ->
-              exists cn, zlookup c' (s_conns s) = Some cn /\ c_queue cn' = c_queue cn /\ (c_db cn' = c_db cn \/ 0 <= c_db cn' < 16)).
-  { intros r0 E. injection E as _ <-. split; [exact Hl|]. split; [exact Hp|]. intros c' cn' Hc'. rewrite Hc in Hc'.
-    exists cn'. split; [exact Hc'|]. split; [reflexivity|left; reflexivity]. }
-  destruct rest as [|a [|? ?]]; try (eapply Same; exact H); try (destruct a; eapply Same; exact H).
-  destruct a; try (eapply Same; exact H).
-  destruct (parse_usize b) as [n|] eqn:En; [|eapply Same; exact H].
-  destruct (16 <=? n) eqn:E16; [eapply Same; exact H|].
-  destruct (zlookup c (s_conns s0)) as [cn|] eqn:Ec; [|eapply Same; exact H].
-  injection H as _ <-. cbn [set_conn s_dbs s_password s_conns]. split; [exact Hl|]. split; [exact Hp|].
-  intros c' cn' Hc'. destruct (Z.eq_dec c' c) as [->|Hne].
-  - rewrite zlookup_zset_same in Hc'. injection Hc' as <-. rewrite Hc in Ec. exists cn. split; [exact Ec|]. split; [reflexivity|].
-    right. cbn [c_db]. pose proof (parse_usize_nonneg _ _ En). lia.
-  - rewrite zlookup_zset_other in Hc' by exact Hne. rewrite Hc in Hc'. exists cn'. split; [exact Hc'|]. split; [reflexivity|left; reflexivity].
+  intros HN H1 H2 H3 H. destruct (normal_command_noexp now s c dbi nm rest o HN) as (s1 & E & D1 & D2 & D3).
+  rewrite E in H. destruct (dc_select _ _ _ _ _ _ _ _ _ H1 H2 H3 H) as (G1 & G2 & G3 & G4).
+  rewrite D1 in G1. rewrite D3 in G2. rewrite D2 in G3, G4. repeat split; assumption.
+Qed.
+(** the invariant survives a SELECT *)
+Lemma cinv_after_select s s' :
+  cinv s -> s_dbs s' = s_dbs s -> s_password s' = s_password s ->
+  (forall c' cn', zlookup c' (s_conns s') = Some cn' ->
+    exists cn, zlookup c' (s_conns s) = Some cn /\ c_queue cn' = c_queue cn /\ (c_db cn' = c_db cn \/ 0 <= c_db cn' < 16)) ->
+  cinv s'.
+Proof.
+  intros [C1 C2 C3 C4 C5] E1 E2 E3. constructor.
+  - rewrite E1. exact C1.
+  - intros db. unfold get_db. rewrite E1. apply C2.
+  - intros c' cn' Hc'. destruct (E3 c' cn' Hc') as (cn & G1 & G2 & [G3|G3]); [rewrite G3; eapply C3; exact G1|exact G3].
+  - rewrite E2. exact C4.
+  - intros c' cn' Hc'. destruct (E3 c' cn' Hc') as (cn & G1 & G2 & _). rewrite G2. eapply C5; exact G1.
 Qed.
 
 Ltac name_facts Hn := rewrite ?Hn; reflexivity.
@@ -482,7 +609,7 @@ Proof.
   - (* LPUSH *)
     destruct (h_push true (get_db s dbi) (FBulk nm :: rest)) as [r d'] eqn:Eh.
     assert (He : exec_db now (get_db s dbi) (upper nm) (FBulk nm :: rest) None = Some (r, d')) by (rewrite Hn, exec_db_lpush, Eh; reflexivity).
-    destruct (bnormal_exec_db now s b c dbi nm rest oms r d' ltac:(name_facts Hn) Hb He) as (s1 & E1 & E2 & E3 & E4).
+    destruct (bnormal_exec_db now s b c dbi nm rest oms r d' (proj2 HA) ltac:(name_facts Hn) Hb ltac:(name_facts Hn) He) as (s1 & E1 & E2 & E3 & E4).
     rewrite E1 in H. injection H as <- <- <-.
     destruct (h_push_delta true _ nm rest dbi r d' HA ltac:(name_facts Hn) Eh) as [A1 A2].
     split; [eapply cinv_set_db; eauto|].
@@ -491,7 +618,7 @@ Proof.
   - (* RPUSH *)
     destruct (h_push false (get_db s dbi) (FBulk nm :: rest)) as [r d'] eqn:Eh.
     assert (He : exec_db now (get_db s dbi) (upper nm) (FBulk nm :: rest) None = Some (r, d')) by (rewrite Hn, exec_db_rpush, Eh; reflexivity).
-    destruct (bnormal_exec_db now s b c dbi nm rest oms r d' ltac:(name_facts Hn) Hb He) as (s1 & E1 & E2 & E3 & E4).
+    destruct (bnormal_exec_db now s b c dbi nm rest oms r d' (proj2 HA) ltac:(name_facts Hn) Hb ltac:(name_facts Hn) He) as (s1 & E1 & E2 & E3 & E4).
     rewrite E1 in H. injection H as <- <- <-.
     destruct (h_push_delta false _ nm rest dbi r d' HA ltac:(name_facts Hn) Eh) as [A1 A2].
     split; [eapply cinv_set_db; eauto|].
@@ -500,7 +627,7 @@ Proof.
   - (* LPOP *)
     destruct (h_key1 (e_pop true) (get_db s dbi) (FBulk nm :: rest)) as [r d'] eqn:Eh.
     assert (He : exec_db now (get_db s dbi) (upper nm) (FBulk nm :: rest) None = Some (r, d')) by (rewrite Hn, exec_db_lpop, Eh; reflexivity).
-    destruct (bnormal_exec_db now s b c dbi nm rest oms r d' ltac:(name_facts Hn) Hb He) as (s1 & E1 & E2 & E3 & E4).
+    destruct (bnormal_exec_db now s b c dbi nm rest oms r d' (proj2 HA) ltac:(name_facts Hn) Hb ltac:(name_facts Hn) He) as (s1 & E1 & E2 & E3 & E4).
     rewrite E1 in H. injection H as <- <- <-.
     destruct (h_pop_delta true _ nm rest dbi r d' HA ltac:(name_facts Hn) Eh) as [A1 A2].
     split; [eapply cinv_set_db; eauto|].
@@ -509,7 +636,7 @@ Proof.
   - (* RPOP *)
     destruct (h_key1 (e_pop false) (get_db s dbi) (FBulk nm :: rest)) as [r d'] eqn:Eh.
     assert (He : exec_db now (get_db s dbi) (upper nm) (FBulk nm :: rest) None = Some (r, d')) by (rewrite Hn, exec_db_rpop, Eh; reflexivity).
-    destruct (bnormal_exec_db now s b c dbi nm rest oms r d' ltac:(name_facts Hn) Hb He) as (s1 & E1 & E2 & E3 & E4).
+    destruct (bnormal_exec_db now s b c dbi nm rest oms r d' (proj2 HA) ltac:(name_facts Hn) Hb ltac:(name_facts Hn) He) as (s1 & E1 & E2 & E3 & E4).
     rewrite E1 in H. injection H as <- <- <-.
     destruct (h_pop_delta false _ nm rest dbi r d' HA ltac:(name_facts Hn) Eh) as [A1 A2].
     split; [eapply cinv_set_db; eauto|].
@@ -521,7 +648,7 @@ Proof.
     destruct (h_key1 e_llen (get_db s dbi) (FBulk nm :: rest)) as [r d'] eqn:Eh.
     assert (Hd' : d' = get_db s dbi) by (rewrite <- (h_llen_keep (get_db s dbi) (FBulk nm :: rest)), Eh; reflexivity).
     assert (He : exec_db now (get_db s dbi) (upper nm) (FBulk nm :: rest) None = Some (r, d')) by (rewrite Hn, exec_db_llen, Eh; reflexivity).
-    destruct (bnormal_exec_db now s b c dbi nm rest oms r d' ltac:(name_facts Hn) Hb He) as (s1 & E1 & E2 & E3 & E4).
+    destruct (bnormal_exec_db now s b c dbi nm rest oms r d' (proj2 HA) ltac:(name_facts Hn) Hb ltac:(name_facts Hn) He) as (s1 & E1 & E2 & E3 & E4).
     rewrite E1 in H. injection H as <- <- <-.
     split; [eapply cinv_set_db; eauto; subst d'; exact HA|].
     rewrite (pushed_of_nil dbi nm rest r) by (name_facts Hn). rewrite (returned_of_nil dbi nm rest r) by (name_facts Hn).
@@ -530,7 +657,7 @@ Proof.
     destruct (h_range e_lrange (get_db s dbi) (FBulk nm :: rest)) as [r d'] eqn:Eh.
     assert (Hd' : d' = get_db s dbi) by (rewrite <- (h_lrange_keep (get_db s dbi) (FBulk nm :: rest)), Eh; reflexivity).
     assert (He : exec_db now (get_db s dbi) (upper nm) (FBulk nm :: rest) None = Some (r, d')) by (rewrite Hn, exec_db_lrange, Eh; reflexivity).
-    destruct (bnormal_exec_db now s b c dbi nm rest oms r d' ltac:(name_facts Hn) Hb He) as (s1 & E1 & E2 & E3 & E4).
+    destruct (bnormal_exec_db now s b c dbi nm rest oms r d' (proj2 HA) ltac:(name_facts Hn) Hb ltac:(name_facts Hn) He) as (s1 & E1 & E2 & E3 & E4).
     rewrite E1 in H. injection H as <- <- <-.
     split; [eapply cinv_set_db; eauto; subst d'; exact HA|].
     rewrite (pushed_of_nil dbi nm rest r) by (name_facts Hn). rewrite (returned_of_nil dbi nm rest r) by (name_facts Hn).
@@ -539,23 +666,23 @@ Proof.
     destruct (h_lindex (get_db s dbi) (FBulk nm :: rest)) as [r d'] eqn:Eh.
     assert (Hd' : d' = get_db s dbi) by (rewrite <- (h_lindex_keep (get_db s dbi) (FBulk nm :: rest)), Eh; reflexivity).
     assert (He : exec_db now (get_db s dbi) (upper nm) (FBulk nm :: rest) None = Some (r, d')) by (rewrite Hn, exec_db_lindex, Eh; reflexivity).
-    destruct (bnormal_exec_db now s b c dbi nm rest oms r d' ltac:(name_facts Hn) Hb He) as (s1 & E1 & E2 & E3 & E4).
+    destruct (bnormal_exec_db now s b c dbi nm rest oms r d' (proj2 HA) ltac:(name_facts Hn) Hb ltac:(name_facts Hn) He) as (s1 & E1 & E2 & E3 & E4).
     rewrite E1 in H. injection H as <- <- <-.
     split; [eapply cinv_set_db; eauto; subst d'; exact HA|].
     rewrite (pushed_of_nil dbi nm rest r) by (name_facts Hn). rewrite (returned_of_nil dbi nm rest r) by (name_facts Hn).
     eapply delta_one_db; eauto using in_db_nil. intros k x. subst d'. reflexivity.
   - (* MULTI reaching process_normal_command: unknown command *)
-    destruct (bnormal_unknown now s b c dbi nm rest oms ltac:(name_facts Hn) Hb ltac:(name_facts Hn) ltac:(name_facts Hn)) as (r & s1 & E1 & E2 & E3 & E4).
+    destruct (bnormal_unknown now s b c dbi nm rest oms (proj2 HA) ltac:(name_facts Hn) Hb ltac:(name_facts Hn) ltac:(name_facts Hn) ltac:(name_facts Hn)) as (r & s1 & E1 & E2 & E3 & E4).
     rewrite E1 in H. injection H as <- <- <-. split; [eapply cinv_same_dbs; eauto|].
     rewrite (pushed_of_nil dbi nm rest r) by (name_facts Hn). rewrite (returned_of_nil dbi nm rest r) by (name_facts Hn).
     apply delta_same_dbs. exact E4.
   - (* EXEC *)
-    destruct (bnormal_unknown now s b c dbi nm rest oms ltac:(name_facts Hn) Hb ltac:(name_facts Hn) ltac:(name_facts Hn)) as (r & s1 & E1 & E2 & E3 & E4).
+    destruct (bnormal_unknown now s b c dbi nm rest oms (proj2 HA) ltac:(name_facts Hn) Hb ltac:(name_facts Hn) ltac:(name_facts Hn) ltac:(name_facts Hn)) as (r & s1 & E1 & E2 & E3 & E4).
     rewrite E1 in H. injection H as <- <- <-. split; [eapply cinv_same_dbs; eauto|].
     rewrite (pushed_of_nil dbi nm rest r) by (name_facts Hn). rewrite (returned_of_nil dbi nm rest r) by (name_facts Hn).
     apply delta_same_dbs. exact E4.
   - (* DISCARD *)
-    destruct (bnormal_unknown now s b c dbi nm rest oms ltac:(name_facts Hn) Hb ltac:(name_facts Hn) ltac:(name_facts Hn)) as (r & s1 & E1 & E2 & E3 & E4).
+    destruct (bnormal_unknown now s b c dbi nm rest oms (proj2 HA) ltac:(name_facts Hn) Hb ltac:(name_facts Hn) ltac:(name_facts Hn) ltac:(name_facts Hn)) as (r & s1 & E1 & E2 & E3 & E4).
     rewrite E1 in H. injection H as <- <- <-. split; [eapply cinv_same_dbs; eauto|].
     rewrite (pushed_of_nil dbi nm rest r) by (name_facts Hn). rewrite (returned_of_nil dbi nm rest r) by (name_facts Hn).
     apply delta_same_dbs. exact E4.
@@ -563,22 +690,16 @@ Proof.
     rewrite (pushed_of_nil dbi nm rest rep) by (name_facts Hn). rewrite (returned_of_nil dbi nm rest rep) by (name_facts Hn).
     rewrite bpop_parts_names in Hb. apply orb_false_iff in Hb. destruct Hb as [Hb1 Hb2].
     unfold bnormal in H. rewrite Hb1, Hb2 in H.
-    destruct (normal_command now s c dbi (FBulk nm :: rest) None) as [r s1] eqn:En. injection H as <- <- <-.
-    destruct (nc_ping _ _ _ _ _ _ _ _ _ ltac:(name_facts Hn) En) as (E1 & E2 & E3).
+    destruct (normal_command now s c dbi (FBulk nm :: rest) None) as [r s1] eqn:En. cbv zeta in H. injection H as <- <- _.
+    destruct (nc_ping _ _ _ _ _ _ _ _ _ (proj2 HA) ltac:(name_facts Hn) En) as (E1 & E2 & E3).
     split; [eapply cinv_same_dbs; eauto|apply delta_same_dbs; exact E1].
   - (* SELECT *)
     rewrite (pushed_of_nil dbi nm rest rep) by (name_facts Hn). rewrite (returned_of_nil dbi nm rest rep) by (name_facts Hn).
     rewrite bpop_parts_names in Hb. apply orb_false_iff in Hb. destruct Hb as [Hb1 Hb2].
     unfold bnormal in H. rewrite Hb1, Hb2 in H.
-    destruct (normal_command now s c dbi (FBulk nm :: rest) None) as [r s1] eqn:En. injection H as <- <- <-.
-    destruct (nc_select _ _ _ _ _ _ _ _ _ ltac:(name_facts Hn) ltac:(name_facts Hn) ltac:(name_facts Hn) En) as (E1 & E2 & E3).
-    split; [|apply delta_same_dbs; exact E1].
-    destruct CI as [C1 C2 C3 C4 C5]. constructor.
-    + rewrite E1. exact C1.
-    + intros db. unfold get_db. rewrite E1. apply C2.
-    + intros c' cn' Hc'. destruct (E3 c' cn' Hc') as (cn & G1 & G2 & [G3|G3]); [rewrite G3; eapply C3; exact G1|exact G3].
-    + rewrite E2. exact C4.
-    + intros c' cn' Hc'. destruct (E3 c' cn' Hc') as (cn & G1 & G2 & _). rewrite G2. eapply C5; exact G1.
+    destruct (normal_command now s c dbi (FBulk nm :: rest) None) as [r s1] eqn:En. cbv zeta in H. injection H as <- <- _.
+    destruct (nc_select _ _ _ _ _ _ _ _ _ (proj2 HA) ltac:(name_facts Hn) ltac:(name_facts Hn) ltac:(name_facts Hn) En) as (E1 & E2 & E3 & _).
+    split; [|apply delta_same_dbs; exact E1]. eapply cinv_after_select; eauto.
 Qed.
 
 (** ================= BLPOP / BRPOP ================= *)
@@ -637,6 +758,17 @@ Proof.
 Qed.
 
 (** ================= any list command; the queue of an EXEC ================= *)
+Lemma cinv_lazy now s dbi name parts : cinv s ->
+  cinv (lazy_expire now s dbi name parts) /\ s_dbs (lazy_expire now s dbi name parts) = s_dbs s.
+Proof.
+  intros CI. pose proof (lazy_expire_noexp now s dbi name parts (proj2 (ci_all s CI dbi))) as E.
+  destruct (lazy_expire_rest now s dbi name parts) as (L1 & L2 & _).
+  split; [eapply cinv_same_dbs; eauto|exact E].
+Qed.
+Lemma delta_from s s1 s' a r : s_dbs s1 = s_dbs s -> delta s1 s' a r -> delta s s' a r.
+Proof.
+  intros E H db k x Hd. specialize (H db k x Hd). unfold list_at, get_db in *. rewrite E in H. exact H.
+Qed.
 Lemma bnormal_any now s b c dbi nm rest oms rep s' b' :
   cinv s -> 0 <= dbi < 16 -> bmem (upper nm) list_cmds = true ->
   bnormal now s b c dbi (FBulk nm :: rest) None oms = (rep, s', b') ->
@@ -644,9 +776,13 @@ Lemma bnormal_any now s b c dbi nm rest oms rep s' b' :
 Proof.
   intros CI Hr Hin H. destruct (bpop_parts (FBulk nm :: rest)) eqn:Hb; [|eapply bnormal_list; eauto].
   rewrite bpop_parts_names in Hb. unfold bnormal in H.
+  destruct (cinv_lazy now s dbi (upper nm) (FBulk nm :: rest) CI) as [CI1 E].
   destruct (beq (upper nm) (bs "BLPOP")) eqn:E1.
-  - eapply h_bpop_delta; eauto. unfold is_bpop_name. rewrite E1. reflexivity.
-  - cbn [orb] in Hb. rewrite Hb in H. eapply h_bpop_delta; eauto. unfold is_bpop_name. rewrite Hb. apply orb_true_r.
+  - destruct (h_bpop_delta _ _ _ _ _ _ _ _ _ _ _ _ CI1 Hr ltac:(unfold is_bpop_name; rewrite E1; reflexivity) H) as [G1 G2].
+    split; [exact G1|eapply delta_from; eauto].
+  - cbn [orb] in Hb. rewrite Hb in H.
+    destruct (h_bpop_delta _ _ _ _ _ _ _ _ _ _ _ _ CI1 Hr ltac:(unfold is_bpop_name; rewrite Hb; apply orb_true_r) H) as [G1 G2].
+    split; [exact G1|eapply delta_from; eauto].
 Qed.
 (** parts that do not start with a bulk string: "invalid command format" *)
 Lemma bnormal_badhead now s b c dbi parts oms rep s' b' :
@@ -656,27 +792,78 @@ Proof.
   intros H Hs. unfold bnormal, normal_command in H. destruct parts as [|p ?]; [injection H as _ <- <-; split; reflexivity|].
   destruct p; try contradiction; injection H as _ <- <-; split; reflexivity.
 Qed.
-
-Lemma bexec_queue_delta now dbi : forall q s b acc reps s' b',
-  cinv s -> 0 <= dbi < 16 -> forallb list_parts q = true ->
-  bexec_queue now s b dbi q acc = (reps, s', b') ->
-  cinv s' /\ exists reps1, reps = rev acc ++ reps1 /\
-    delta s s' (zip_effects (pushed_of dbi) q reps1) (zip_effects (returned_of dbi) q reps1).
+(** commands run with the placeholder id 0 leave the real connections alone *)
+Lemma bnormal_conns0 now s b dbi parts o oms rep s' b' :
+  bnormal now s b 0 dbi parts o oms = (rep, s', b') ->
+  forall c', c' <> 0 -> zlookup c' (s_conns s') = zlookup c' (s_conns s).
 Proof.
-  induction q as [|parts q IH]; intros s b acc reps s' b' CI Hr Hq H; cbn [bexec_queue] in H.
+  intros H c' Hc'. unfold bnormal in H.
+  assert (NC : forall (F : frame -> server -> blocking), (let (r, s'0) := normal_command now s 0 dbi parts o in (r, s'0, F r s'0)) = (rep, s', b') ->
+            zlookup c' (s_conns s') = zlookup c' (s_conns s)).
+  { intros F E. destruct (normal_command now s 0 dbi parts o) as [r s1] eqn:En. injection E as _ <- _.
+    eapply normal_command_conns; eauto. }
+  destruct parts as [|p rest]; [apply (NC (fun _ _ => b)); exact H|].
+  destruct p; try (apply (NC (fun _ _ => b)); exact H).
+  assert (HB : forall left, h_bpop left now (lazy_expire now s dbi (upper b0) (FBulk b0 :: rest)) b 0 dbi (FBulk b0 :: rest) oms = (rep, s', b') ->
+            zlookup c' (s_conns s') = zlookup c' (s_conns s)).
+  { intros left E. unfold h_bpop in E. rewrite <- (proj1 (lazy_expire_rest now s dbi (upper b0) (FBulk b0 :: rest))).
+    destruct (len (FBulk b0 :: rest) <? 3); [injection E as _ <- _; reflexivity|].
+    destruct (timeout_of _ oms); [|injection E as _ <- _; reflexivity].
+    destruct (all_bulks _); [|injection E as _ <- _; reflexivity].
+    destruct (fast_path left _ l) as [[r|] d']; injection E as _ <- _; reflexivity. }
+  destruct (beq (upper b0) (bs "BLPOP")); [apply (HB true); exact H|].
+  destruct (beq (upper b0) (bs "BRPOP")); [apply (HB false); exact H|].
+  apply (NC (fun r s'0 => let b1 := notify_after_push b dbi (upper b0) (FBulk b0 :: rest) r in
+                          if beq (upper b0) (bs "EVAL") then notify_after_script s'0 b1 dbi (FBulk b0 :: rest) else b1)). exact H.
+Qed.
+Lemma next_db_other dbi parts rep : beq (queued_name parts) (bs "SELECT") = false -> list_parts parts = true -> next_db dbi parts rep = dbi.
+Proof.
+  intros Hq Hl. unfold next_db. destruct parts as [|p [|a [|? ?]]]; try reflexivity; destruct p; try reflexivity; destruct a; try reflexivity.
+  unfold list_parts, list_frame in Hl. apply andb_true_iff in Hl. destruct Hl as [_ Ht]. apply beq_eq in Ht.
+  cbn [queued_name] in Hq. rewrite Ht in Hq. rewrite Hq. reflexivity.
+Qed.
+
+Lemma bexec_queue_delta now c : forall q s b dbi acc reps s' b',
+  cinv s -> c <> 0 -> (exists cn, zlookup c (s_conns s) = Some cn /\ c_db cn = dbi) -> forallb list_parts q = true ->
+  bexec_queue now s b c dbi q acc = (reps, s', b') ->
+  cinv s' /\ exists reps1, reps = rev acc ++ reps1 /\
+    delta s s' (zip_effects pushed_of dbi q reps1) (zip_effects returned_of dbi q reps1).
+Proof.
+  induction q as [|parts q IH]; intros s b dbi acc reps s' b' CI Hc0 Hex Hq H; cbn [bexec_queue] in H.
   - injection H as <- <- <-. split; [exact CI|]. exists []. rewrite app_nil_r. split; [reflexivity|]. apply delta_same. reflexivity.
   - cbn [forallb] in Hq. apply andb_true_iff in Hq. destruct Hq as [Hp Hq].
-    destruct (bnormal now s b 0 dbi parts None None) as [[rep s1] b1] eqn:En.
-    assert (Step : cinv s1 /\ delta s s1 (pushed_of dbi parts rep) (returned_of dbi parts rep)).
-    { destruct parts as [|p rest].
-      - destruct (bnormal_badhead _ _ _ _ _ _ _ _ _ _ En I) as [-> _]. split; [exact CI|]. apply delta_same. reflexivity.
-      - destruct p; try (destruct (bnormal_badhead _ _ _ _ _ _ _ _ _ _ En I) as [-> _]; split; [exact CI|apply delta_same; reflexivity]).
-        unfold list_parts, list_frame in Hp. apply andb_true_iff in Hp. destruct Hp as [Hp _].
-        eapply bnormal_any; eauto. }
-    destruct Step as [CI1 D1].
-    destruct (IH _ _ _ _ _ _ CI1 Hr Hq H) as (CI2 & reps1 & E & D2).
-    split; [exact CI2|]. exists (rep :: reps1). cbn [rev] in E. rewrite <- app_assoc in E. split; [exact E|].
-    cbn [zip_effects]. eapply delta_trans; eauto.
+    destruct Hex as (cn & Hcn & Hdb). assert (Hr : 0 <= dbi < 16) by (rewrite <- Hdb; eapply ci_db; eauto).
+    destruct (beq (queued_name parts) (bs "SELECT")) eqn:Esel.
+    + (* a queued SELECT: runs for the connection *)
+      rewrite (bnormal_select _ _ _ _ _ _ _ _ Esel) in H.
+      destruct parts as [|p rest]; [discriminate|]. destruct p; try discriminate.
+      pose proof Hp as Hp'. unfold list_parts, list_frame in Hp'. apply andb_true_iff in Hp'. destruct Hp' as [Hin Ht]. apply beq_eq in Ht.
+      cbn [queued_name] in Esel. rewrite Ht in Esel.
+      assert (NP : beq (upper b0) (bs "PING") = false) by (apply beq_eq in Esel; rewrite Esel; reflexivity).
+      assert (NE : beq (upper b0) (bs "ECHO") = false) by (apply beq_eq in Esel; rewrite Esel; reflexivity).
+      destruct (normal_command now s c dbi (FBulk b0 :: rest) None) as [rep s1] eqn:En.
+      destruct (nc_select _ _ _ _ _ _ _ _ _ (proj2 (ci_all s CI dbi)) NP NE Esel En) as (E1 & E2 & E3 & E4).
+      destruct (E4 cn Hcn) as (cn1 & Hcn1 & Hdb1). rewrite Hcn1 in H.
+      assert (CI1 : cinv s1) by (eapply cinv_after_select; eauto).
+      destruct (IH _ _ _ _ _ _ _ CI1 Hc0 (ex_intro _ cn1 (conj Hcn1 eq_refl)) Hq H) as (CI2 & reps1 & E & D2).
+      split; [exact CI2|]. exists (rep :: reps1). cbn [rev] in E. rewrite <- app_assoc in E. split; [exact E|].
+      cbn [zip_effects]. rewrite Hdb in Hdb1. rewrite <- Hdb1.
+      rewrite (pushed_of_nil dbi b0 rest rep) by (apply beq_eq in Esel; rewrite Esel; reflexivity).
+      rewrite (returned_of_nil dbi b0 rest rep) by (apply beq_eq in Esel; rewrite Esel; reflexivity).
+      cbn [app]. intros db k x Hd. specialize (D2 db k x Hd). unfold list_at, get_db in *. rewrite <- E1. exact D2.
+    + destruct (bnormal now s b 0 dbi parts None None) as [[rep s1] b1] eqn:En.
+      assert (Step : cinv s1 /\ delta s s1 (pushed_of dbi parts rep) (returned_of dbi parts rep)).
+      { destruct parts as [|p rest].
+        - destruct (bnormal_badhead _ _ _ _ _ _ _ _ _ _ En I) as [-> _]. split; [exact CI|]. apply delta_same. reflexivity.
+        - destruct p; try (destruct (bnormal_badhead _ _ _ _ _ _ _ _ _ _ En I) as [-> _]; split; [exact CI|apply delta_same; reflexivity]).
+          pose proof Hp as Hp'. unfold list_parts, list_frame in Hp'. apply andb_true_iff in Hp'. destruct Hp' as [Hp' _].
+          eapply bnormal_any; eauto. }
+      destruct Step as [CI1 D1].
+      assert (Hex1 : exists cn1, zlookup c (s_conns s1) = Some cn1 /\ c_db cn1 = dbi).
+      { exists cn. rewrite (bnormal_conns0 _ _ _ _ _ _ _ _ _ _ En c Hc0). split; assumption. }
+      destruct (IH _ _ _ _ _ _ _ CI1 Hc0 Hex1 Hq H) as (CI2 & reps1 & E & D2).
+      split; [exact CI2|]. exists (rep :: reps1). cbn [rev] in E. rewrite <- app_assoc in E. split; [exact E|].
+      cbn [zip_effects]. rewrite (next_db_other dbi parts rep Esel Hp). eapply delta_trans; eauto.
 Qed.
 
 (** ================= one frame of a list-command history ================= *)
@@ -700,11 +887,11 @@ Proof.
 Qed.
 
 Lemma bprocess_frame_delta now s b c cn f oms rep s' b' :
-  cinv s -> zlookup c (s_conns s) = Some cn -> list_frame f = true ->
+  cinv s -> c <> 0 -> zlookup c (s_conns s) = Some cn -> list_frame f = true ->
   bprocess_frame now s b c f None oms = (rep, s', b') ->
   cinv s' /\ delta s s' (frame_effect pushed_of s c f rep) (frame_effect returned_of s c f rep).
 Proof.
-  intros CI Hc Hl H. unfold bprocess_frame in H.
+  intros CI Hc0 Hc Hl H. unfold bprocess_frame in H.
   assert (NoEff : forall g : Z -> list frame -> frame -> list elem, (match f with FArray (FBulk _ :: _) => False | _ => True end) -> frame_effect g s c f rep = []).
   { intros g Hs. unfold frame_effect. rewrite Hc. destruct f; try reflexivity. destruct l as [|p ?]; try reflexivity. destruct p; try reflexivity. contradiction. }
   assert (PassErr : (match f with FArray (FBulk _ :: _) => False | _ => True end) ->
@@ -722,6 +909,16 @@ Proof.
   rewrite Hc in H. rewrite Htrim in H. rewrite (ci_pw s CI) in H. cbn [andb] in H.
   destruct (list_cmd_not_other _ Hin) as (NW & NU & NA).
   unfold frame_effect. rewrite Hc.
+  destruct (c_intx cn && negb (mem_name (upper nm) tx_not_queued)) eqn:Eq.
+  { (* queued *)
+    apply andb_true_iff in Eq. destruct Eq as [Ei Eq]. rewrite Ei.
+    assert (NE : beq (upper nm) (bs "EXEC") = false).
+    { destruct (beq (upper nm) (bs "EXEC")) eqn:EE; [|reflexivity]. apply beq_eq in EE. rewrite EE in Eq. vm_compute in Eq. discriminate. }
+    rewrite NE.
+    unfold process_frame in H. rewrite Hc, Htrim, (ci_pw s CI) in H. cbn [andb] in H. rewrite Ei, Eq in H. cbn [andb] in H.
+    injection H as _ <- _. split; [|apply delta_same; reflexivity].
+    apply (cinv_set_conn s c cn _ CI Hc); [reflexivity|]. cbn [with_tx c_queue]. rewrite forallb_app, (ci_q s CI c cn Hc). cbn [forallb].
+    unfold list_parts, list_frame. rewrite Hin, Htrim, beq_refl. reflexivity. }
   destruct (beq (upper nm) (bs "MULTI")) eqn:EM.
   { (* MULTI *)
     assert (NE : beq (upper nm) (bs "EXEC") = false) by (apply beq_eq in EM; rewrite EM; reflexivity).
@@ -729,7 +926,7 @@ Proof.
     assert (NR : beq (upper nm) (bs "LPOP") || beq (upper nm) (bs "RPOP") = false) by (apply beq_eq in EM; rewrite EM; reflexivity).
     assert (NB : is_bpop_name (upper nm) = false) by (apply beq_eq in EM; rewrite EM; reflexivity).
     rewrite NE, (pushed_of_nil _ nm rest rep NP), (returned_of_nil _ nm rest rep NR NB).
-    unfold process_frame in H. rewrite Hc, Htrim, (ci_pw s CI), EM in H. cbn [andb] in H.
+    unfold process_frame in H. rewrite Hc, Htrim, (ci_pw s CI) in H. cbn [andb] in H. rewrite Eq, EM in H.
     destruct (c_intx cn); injection H as _ <- _.
     - split; [exact CI|apply delta_same; reflexivity].
     - split; [eapply cinv_set_conn; eauto; reflexivity|apply delta_same; reflexivity]. }
@@ -741,11 +938,13 @@ Proof.
     unfold bh_exec in H. cbv zeta in H. destruct (c_intx cn) eqn:Ei; cbn [negb] in H.
     2:{ injection H as <- <- <-. rewrite (pushed_of_nil _ nm rest _ NP), (returned_of_nil _ nm rest _ NR NB).
         split; [exact CI|apply delta_same; reflexivity]. }
-    destruct (existsb _ (c_watched cn)).
+    destruct (watch_violated now s cn).
     { injection H as <- <- <-. split; [eapply cinv_set_conn; eauto; reflexivity|apply delta_same; reflexivity]. }
-    revert H. destruct (bexec_queue _ _ _ _ _ _) as [[reps s2] b2] eqn:Eq. intros H. injection H as <- <- <-.
+    revert H. destruct (bexec_queue _ _ _ _ _ _ _) as [[reps s2] b2] eqn:Eq2. intros H. injection H as <- <- <-.
     assert (CI1 : cinv (set_conn s c (clear_tx cn))) by (eapply cinv_set_conn; eauto; reflexivity).
-    destruct (bexec_queue_delta _ _ _ _ _ _ _ _ _ CI1 (ci_db s CI c cn Hc) (ci_q s CI c cn Hc) Eq) as (CI2 & reps1 & E & D).
+    assert (Hex : exists cn1, zlookup c (s_conns (set_conn s c (clear_tx cn))) = Some cn1 /\ c_db cn1 = c_db cn).
+    { exists (clear_tx cn). cbn [set_conn s_conns]. rewrite zlookup_zset_same. split; reflexivity. }
+    destruct (bexec_queue_delta _ _ _ _ _ _ _ _ _ _ CI1 Hc0 Hex (ci_q s CI c cn Hc) Eq2) as (CI2 & reps1 & E & D).
     cbn [rev app] in E. subst reps1. split; [exact CI2|].
     intros db k x Hd. specialize (D db k x Hd).
     change (list_at (set_conn s c (clear_tx cn)) db k) with (list_at s db k) in D. exact D. }
@@ -754,18 +953,11 @@ Proof.
     assert (NR : beq (upper nm) (bs "LPOP") || beq (upper nm) (bs "RPOP") = false) by (apply beq_eq in ED; rewrite ED; reflexivity).
     assert (NB : is_bpop_name (upper nm) = false) by (apply beq_eq in ED; rewrite ED; reflexivity).
     rewrite (pushed_of_nil _ nm rest rep NP), (returned_of_nil _ nm rest rep NR NB).
-    cbn [orb] in H. unfold process_frame in H. rewrite Hc, Htrim, (ci_pw s CI), EM, EE, ED in H. cbn [andb] in H.
+    cbn [orb] in H. unfold process_frame in H. rewrite Hc, Htrim, (ci_pw s CI) in H. cbn [andb] in H. rewrite Eq, EM, EE, ED in H.
     destruct (c_intx cn); cbn [negb] in H; injection H as _ <- _.
     - split; [eapply cinv_set_conn; eauto; reflexivity|apply delta_same; reflexivity].
     - split; [exact CI|apply delta_same; reflexivity]. }
   rewrite NW, NU, NA in H. cbn [orb] in H.
-  destruct (c_intx cn && negb (mem_name (upper nm) tx_not_queued)) eqn:Eq.
-  { (* queued *)
-    apply andb_true_iff in Eq. destruct Eq as [Ei Eq]. rewrite Ei.
-    unfold process_frame in H. rewrite Hc, Htrim, (ci_pw s CI), EM, EE, ED, NW, NU, NA, Ei, Eq in H. cbn [andb] in H.
-    injection H as _ <- _. split; [|apply delta_same; reflexivity].
-    apply (cinv_set_conn s c cn _ CI Hc); [reflexivity|]. cbn [with_tx c_queue]. rewrite forallb_app, (ci_q s CI c cn Hc). cbn [forallb].
-    unfold list_parts, list_frame. rewrite Hin, Htrim, beq_refl. reflexivity. }
   (* process_normal_command: the connection is not in MULTI *)
   assert (Ei : c_intx cn = false).
   { destruct (c_intx cn); [|reflexivity]. cbn [andb] in Eq. apply negb_false_iff in Eq.
@@ -798,28 +990,23 @@ Lemma bnormal_blk_db now s b c dbi parts o oms rep s' b' :
   bnormal now s b c dbi parts o oms = (rep, s', b') -> blk_from dbi b b'.
 Proof.
   intros H. unfold bnormal in H.
-  assert (NC : forall nmx, (let (r, s'0) := normal_command now s c dbi parts o in (r, s'0, notify_after_push b dbi nmx parts r)) = (rep, s', b') -> blk_from dbi b b').
-  { intros nmx E. destruct (normal_command now s c dbi parts o) as [r s1]. injection E as _ _ <-.
-    apply blk_from_same. apply notify_after_push_fields. }
   destruct parts as [|p rest].
   { destruct (normal_command now s c dbi [] o). injection H as _ _ <-. apply blk_from_same. reflexivity. }
   destruct p; try (destruct (normal_command now s c dbi _ o); injection H as _ _ <-; apply blk_from_same; reflexivity).
   destruct (beq (upper b0) (bs "BLPOP")); [eapply h_bpop_blk_db; exact H|].
   destruct (beq (upper b0) (bs "BRPOP")); [eapply h_bpop_blk_db; exact H|].
-  eapply NC. exact H.
+  destruct (normal_command now s c dbi (FBulk b0 :: rest) o) as [r s1]. injection H as _ _ <-.
+  apply blk_from_same. cbv zeta.
+  destruct (notify_after_push_fields b dbi (upper b0) (FBulk b0 :: rest) r) as (F & _).
+  destruct (beq (upper b0) _); [|exact F].
+  destruct (notify_after_script_fields s1 (notify_after_push b dbi (upper b0) (FBulk b0 :: rest) r) dbi (FBulk b0 :: rest)) as (K & _).
+  congruence.
 Qed.
-Lemma bexec_queue_blk_db now dbi : forall q s b acc reps s' b',
-  bexec_queue now s b dbi q acc = (reps, s', b') -> blk_from dbi b b'.
-Proof.
-  induction q as [|parts q IH]; intros s b acc reps s' b' H; cbn [bexec_queue] in H.
-  - injection H as _ _ <-. apply blk_from_same. reflexivity.
-  - destruct (bnormal now s b 0 dbi parts None None) as [[rep s1] b1] eqn:En.
-    eapply blk_from_trans; [eapply bnormal_blk_db; exact En|eapply IH; exact H].
-Qed.
+(** the Blocked states an EXEC leaves are the ones it found (nothing blocks inside EXEC) *)
 Lemma bprocess_frame_blk_db now s b c cn f o oms rep s' b' :
-  zlookup c (s_conns s) = Some cn -> bprocess_frame now s b c f o oms = (rep, s', b') -> blk_from (c_db cn) b b'.
+  agree b -> zlookup c (s_conns s) = Some cn -> bprocess_frame now s b c f o oms = (rep, s', b') -> blk_from (c_db cn) b b'.
 Proof.
-  intros Hc H. unfold bprocess_frame in H.
+  intros HA Hc H. unfold bprocess_frame in H.
   assert (Pass : (let (r, s'0) := process_frame now s c f o in (r, s'0, b)) = (rep, s', b') -> blk_from (c_db cn) b b').
   { destruct (process_frame now s c f o). intros E. injection E as _ _ <-. apply blk_from_same. reflexivity. }
   destruct f as [| | | | |l| | | | | | |]; try (apply Pass; exact H).
@@ -827,14 +1014,14 @@ Proof.
   destruct first as [| | |nm| | | | | | | | |]; try (apply Pass; exact H).
   rewrite Hc in H.
   destruct (_ && negb (c_auth cn)); [apply Pass; exact H|].
+  destruct (c_intx cn && _); [apply Pass; exact H|].
   destruct (beq (upper (trim nm)) (bs "MULTI")); [apply Pass; exact H|].
   destruct (beq (upper (trim nm)) (bs "EXEC")).
   { unfold bh_exec in H. cbv zeta in H. destruct (negb (c_intx cn)); [injection H as _ _ <-; apply blk_from_same; reflexivity|].
-    destruct (existsb _ (c_watched cn)); [injection H as _ _ <-; apply blk_from_same; reflexivity|].
-    revert H. destruct (bexec_queue _ _ _ _ _ _) as [[reps s2] b2] eqn:E. intros H. injection H as _ _ <-.
-    eapply bexec_queue_blk_db; exact E. }
+    destruct (watch_violated now s cn); [injection H as _ _ <-; apply blk_from_same; reflexivity|].
+    revert H. destruct (bexec_queue _ _ _ _ _ _ _) as [[reps s2] b2] eqn:E. intros H. injection H as _ _ <-.
+    apply blk_from_same. eapply bexec_queue_inv; eauto. }
   destruct (_ || _ || _ || _); [apply Pass; exact H|].
-  destruct (c_intx cn && _); [apply Pass; exact H|].
   eapply bnormal_blk_db; exact H.
 Qed.
 
@@ -844,34 +1031,95 @@ Definition BR (b : blocking) : Prop := forall c st, zlookup c (b_blk b) = Some s
 Lemma cinv_set_db_direct s dbi d' : cinv s -> ALLd d' -> cinv (set_db s dbi d').
 Proof. intros CI HA. eapply cinv_set_db; eauto; reflexivity. Qed.
 
-Lemma wake_client_cons s b u W :
+(** the other keys of the call, tried in order (8ab686d): at most one element leaves *)
+Lemma recheck_delta left dbi : forall keys d o d',
+  ALLd d -> recheck left d keys = (o, d') ->
+  ALLd d' /\ forall k' x, occm x (lst d' k') + ecountm (dbi, k', x) (match o with Some (k, v) => [(dbi, k, v)] | None => [] end) = occm x (lst d k').
+Proof.
+  induction keys as [|k keys IH]; intros d o d' HA H; cbn [recheck] in H.
+  - injection H as <- <-. split; [exact HA|]. intros k' x. rewrite ecount_nil. lia.
+  - pose proof (on_key_pop_delta left d k dbi HA) as Hp. cbv zeta in Hp.
+    destruct (on_key d k (e_pop left)) as [r d1]. cbn [fst snd] in Hp. destruct Hp as (P1 & P2 & P3).
+    destruct r; try contradiction.
+    + injection H as <- <-. split; [exact P1|]. exact P3.
+    + destruct (IH d1 o d' P1 H) as (Q1 & Q3). split; [exact Q1|]. intros k' x. rewrite Q3. specialize (P3 k' x). rewrite ecount_nil in P3. lia.
+Qed.
+(** an element popped for a client that has gone and pushed back at the end it came from:
+    the list is as it was *)
+Lemma pop_push_back left d k v d1 :
+  ALLd d -> on_key d k (e_pop left) = (FBulk v, d1) ->
+  ALLd (snd (on_key d1 k (e_push left [v]))) /\ forall k', lst (snd (on_key d1 k (e_push left [v]))) k' = lst d k'.
+Proof.
+  intros HA E. destruct (lview d k) as [l|] eqn:El; [|exfalso; exact (proj1 HA k El)].
+  pose proof (pop_view left d k l El) as Hp. rewrite E in Hp. cbn [fst snd] in Hp.
+  assert (Ed1 : d1 = snd (on_key d k (e_pop left))) by (rewrite E; reflexivity).
+  destruct (if left then l else rev l) as [|x t] eqn:Ev; destruct Hp as [Hp1 Hp2]; [discriminate|]. injection Hp1 as Hv. subst x.
+  assert (HA1 : ALLd d1) by (rewrite Ed1; apply ALLd_on_key; [exact HA|rewrite <- Ed1, Hp2; discriminate]).
+  pose proof (push_view left [v] d1 k _ Hp2) as Hq. cbv zeta in Hq. destruct Hq as [_ Hq2].
+  split; [apply ALLd_on_key; [exact HA1|rewrite Hq2; discriminate]|].
+  intros k'. destruct (beq k' k) eqn:Ek.
+  - apply beq_eq in Ek. subst k'. rewrite (lst_view _ _ _ Hq2), (lst_view _ _ _ El). destruct left.
+    + subst l. reflexivity.
+    + apply rev_cons_inv in Ev. rewrite Ev. reflexivity.
+  - rewrite on_key_other_lst by exact Ek. rewrite Ed1. apply on_key_other_lst. exact Ek.
+Qed.
+Lemma nth_list_set_fun {B} (F : db -> B) (l : list db) dX : forall i j,
+  F dX = F (nth i l empty_db) -> F (nth j (list_set l i dX) empty_db) = F (nth j l empty_db).
+Proof.
+  induction l as [|y l IH]; intros i j H; [reflexivity|].
+  destruct i as [|i], j as [|j]; cbn [list_set nth] in *; try reflexivity; [exact H|apply IH; exact H].
+Qed.
+Lemma delta_same_counts s s' i dX : s_dbs s' = list_set (s_dbs s) i dX ->
+  (forall k x, occm x (lst dX k) = occm x (lst (nth i (s_dbs s) empty_db) k)) -> delta s s' [] [].
+Proof.
+  intros E H db k x _. rewrite !list_at_lst, !ecount_nil. unfold get_db. rewrite E.
+  rewrite (nth_list_set_fun (fun d => occm x (lst d k)) (s_dbs s) dX i (Z.to_nat db) (H k x)). reflexivity.
+Qed.
+
+Lemma wake_client_cons now s b u W :
   agreeW b (u :: W) -> cinv s -> BR b ->
-  b_crashed (snd (wake_client s b u)) = b_crashed b /\ cinv (fst (wake_client s b u)) /\
-  ((b_out (snd (wake_client s b u)) = b_out b /\ b_blk (snd (wake_client s b u)) = b_blk b /\ delta s (fst (wake_client s b u)) [] [])
-   \/ (exists st v, zlookup (u_conn u) (b_blk b) = Some st /\
-         b_out (snd (wake_client s b u)) = (u_conn u, FArray [FBulk (u_key u); FBulk v]) :: b_out b /\
-         b_blk (snd (wake_client s b u)) = zremove (u_conn u) (b_blk b) /\
-         delta s (fst (wake_client s b u)) [] [(bl_db st, u_key u, v)])).
+  b_crashed (snd (wake_client now s b u)) = b_crashed b /\ cinv (fst (wake_client now s b u)) /\
+  ((b_out (snd (wake_client now s b u)) = b_out b /\ b_blk (snd (wake_client now s b u)) = b_blk b /\ delta s (fst (wake_client now s b u)) [] [])
+   \/ (exists st k v, zlookup (u_conn u) (b_blk b) = Some st /\
+         b_out (snd (wake_client now s b u)) = (u_conn u, FArray [FBulk k; FBulk v]) :: b_out b /\
+         b_blk (snd (wake_client now s b u)) = zremove (u_conn u) (b_blk b) /\
+         delta s (fst (wake_client now s b u)) [] [(bl_db st, k, v)])).
 Proof.
   intros HA CI HB.
-  destruct HA as (_ & A2 & _). destruct (A2 u (or_introl eq_refl)) as (st & U1 & U2 & _). cbn [with_wake b_blk] in U1.
-  pose proof (HB _ _ U1) as Hr. rewrite <- U2 in Hr.
-  unfold wake_client.
-  pose proof (on_key_pop_delta (u_left u) (get_db s (u_db u)) (u_key u) (u_db u) (ci_all s CI (u_db u))) as Hp. cbv zeta in Hp.
-  destruct (on_key (get_db s (u_db u)) (u_key u) (e_pop (u_left u))) as [r d']. cbn [fst snd] in Hp. destruct Hp as (P1 & P2 & P3).
-  destruct r; try contradiction; rewrite U1; cbn [fst snd].
-  - (* an element: delivered *)
-    split; [reflexivity|]. split; [apply cinv_set_db_direct; assumption|]. right. exists st, b0.
-    split; [first [exact U1|reflexivity]|]. split; [reflexivity|]. split; [reflexivity|].
-    rewrite <- U2.
-    apply (delta_one_db s (set_db s (u_db u) d') (u_db u) d' [] [(u_db u, u_key u, b0)] (ci_len s CI) Hr eq_refl (in_db_nil _)).
-    + intros e0 [<-|[]]. reflexivity.
-    + intros k x. rewrite ecount_nil, P3. lia.
-  - (* nothing there: registered again *)
-    split; [reflexivity|]. split; [apply cinv_set_db_direct; assumption|]. left.
-    split; [reflexivity|]. split; [reflexivity|].
-    apply (delta_one_db s (set_db s (u_db u) d') (u_db u) d' [] [] (ci_len s CI) Hr eq_refl (in_db_nil _) (in_db_nil _)).
-    intros k x. specialize (P3 k x). rewrite ecount_nil in *. lia.
+  destruct HA as (_ & A2 & _). destruct (A2 u (or_introl eq_refl)) as (_ & U). cbn [with_wake b_blk] in U.
+  split; [apply wake_client_crashed|].
+  pose proof (ci_all s CI (u_db u)) as HAd.
+  unfold wake_client. rewrite purge_noexp by (exact (proj2 HAd)). cbn [fst].
+  pose proof (on_key_pop_delta (u_left u) (get_db s (u_db u)) (u_key u) (u_db u) HAd) as Hp. cbv zeta in Hp.
+  destruct (on_key (get_db s (u_db u)) (u_key u) (e_pop (u_left u))) as [r d'] eqn:Epop. cbn [fst snd] in Hp. destruct Hp as (P1 & P2 & P3).
+  destruct (zlookup (u_conn u) (b_blk b)) as [st|] eqn:Eb.
+  - destruct (U st eq_refl) as (U1 & U2 & U3). pose proof (HB _ _ Eb) as Hr. rewrite <- U1 in Hr.
+    destruct r; try contradiction; cbn [fst snd].
+    + (* an element: delivered *)
+      split; [apply cinv_set_db_direct; assumption|]. right. exists st, (u_key u), b0.
+      split; [reflexivity|]. split; [reflexivity|]. split; [reflexivity|]. rewrite <- U1.
+      apply (delta_one_db s (set_db s (u_db u) d') (u_db u) d' [] [(u_db u, u_key u, b0)] (ci_len s CI) Hr eq_refl (in_db_nil _)).
+      * intros e0 [<-|[]]. reflexivity.
+      * intros k x. rewrite ecount_nil, P3. lia.
+    + (* nothing there: the other keys of the call, else registered again *)
+      destruct (recheck (bl_left st) d' (bl_keys st)) as [[[k v]|] d''] eqn:Er;
+        destruct (recheck_delta (bl_left st) (u_db u) _ _ _ _ P1 Er) as (Q1 & Q3); cbn [fst snd].
+      * split; [apply cinv_set_db_direct; assumption|]. right. exists st, k, v.
+        split; [reflexivity|]. split; [reflexivity|]. split; [reflexivity|]. rewrite <- U1.
+        apply (delta_one_db s (set_db s (u_db u) d'') (u_db u) d'' [] [(u_db u, k, v)] (ci_len s CI) Hr eq_refl (in_db_nil _)).
+        -- intros e0 [<-|[]]. reflexivity.
+        -- intros k' x. specialize (Q3 k' x). specialize (P3 k' x). rewrite ecount_nil in *. lia.
+      * split; [apply cinv_set_db_direct; assumption|]. left. split; [reflexivity|]. split; [reflexivity|].
+        apply (delta_one_db s (set_db s (u_db u) d'') (u_db u) d'' [] [] (ci_len s CI) Hr eq_refl (in_db_nil _) (in_db_nil _)).
+        intros k' x. specialize (Q3 k' x). specialize (P3 k' x). rewrite ecount_nil in *. lia.
+  - (* the client has gone: what was popped for it goes back *)
+    destruct r; try contradiction; cbn [fst snd].
+    + destruct (pop_push_back _ _ _ _ _ HAd Epop) as (B1 & B2).
+      split; [apply cinv_set_db_direct; assumption|]. left.
+      split; [exact (proj1 (proj2 (notify_key_ready_fields _ _ _)))|]. split; [exact (proj1 (notify_key_ready_fields _ _ _))|].
+      eapply delta_same_counts; [reflexivity|]. intros k x. rewrite B2. reflexivity.
+    + split; [apply cinv_set_db_direct; assumption|]. left. split; [reflexivity|]. split; [reflexivity|].
+      eapply delta_same_counts; [reflexivity|]. intros k x. specialize (P3 k x). rewrite ecount_nil in P3. unfold get_db in P3. lia.
 Qed.
 
 Lemma async_returns_app b l1 l2 : async_returns b (l1 ++ l2) = async_returns b l1 ++ async_returns b l2.
@@ -887,43 +1135,43 @@ Proof.
   rewrite (H c f (or_introl eq_refl)), (IH H2). reflexivity.
 Qed.
 
-Lemma wake_fold_cons : forall l s b,
+Lemma wake_fold_cons now : forall l s b,
   agreeW b (l ++ b_wake b) -> b_crashed b = false -> cinv s -> BR b ->
-  b_crashed (snd (fold_left wake_step l (s, b))) = false /\ cinv (fst (fold_left wake_step l (s, b))) /\
-  BR (snd (fold_left wake_step l (s, b))) /\
-  exists new, b_out (snd (fold_left wake_step l (s, b))) = rev new ++ b_out b
-    /\ delta s (fst (fold_left wake_step l (s, b))) [] (async_returns b new)
+  b_crashed (snd (fold_left (wake_step now) l (s, b))) = false /\ cinv (fst (fold_left (wake_step now) l (s, b))) /\
+  BR (snd (fold_left (wake_step now) l (s, b))) /\
+  exists new, b_out (snd (fold_left (wake_step now) l (s, b))) = rev new ++ b_out b
+    /\ delta s (fst (fold_left (wake_step now) l (s, b))) [] (async_returns b new)
     /\ (forall c f, In (c, f) new -> In c (map u_conn l)).
 Proof.
   induction l as [|u l IH]; intros s b HA Hc CI HB; cbn [fold_left fst snd].
   - split; [exact Hc|]. split; [exact CI|]. split; [exact HB|]. exists []. split; [reflexivity|]. split; [apply delta_same; reflexivity|intros c f []].
   - rewrite wake_step_eq, Hc. cbn [app] in HA.
-    pose proof (agree_wake_client s b u (l ++ b_wake b) HA) as Hnext. rewrite <- (wake_client_wake s b u) in Hnext.
-    destruct (wake_client_cons s b u (l ++ b_wake b) HA CI HB) as (W1 & W2 & W3).
+    pose proof (agree_wake_next now s b u l HA) as Hnext.
+    destruct (wake_client_cons now s b u (l ++ b_wake b) HA CI HB) as (W1 & W2 & W3).
     assert (Hnd : ~ In (u_conn u) (map u_conn l)).
     { destruct HA as (_ & _ & A3 & _). unfold wakes_unique in A3. cbn [with_wake b_wake map] in A3.
-      inversion A3; subst. intros Hin. apply H1. rewrite map_app. apply in_or_app. left. exact Hin. }
-    destruct (wake_client s b u) as [s1 b1]. cbn [fst snd] in *.
-    rewrite Hc in W1. destruct Hnext as [Hx|Hnext]; [congruence|].
+      apply NoDup_cons_iff in A3. destruct A3 as [A3 _]. intros Hin. apply A3. rewrite map_app. apply in_or_app. left. exact Hin. }
+    destruct (wake_client now s b u) as [s1 b1]. cbn [fst snd] in *.
+    rewrite Hc in W1.
     assert (HB1 : BR b1).
-    { destruct W3 as [(_ & O2 & _)|(st & v & _ & _ & O4 & _)]; intros c st0 Hl.
+    { destruct W3 as [(_ & O2 & _)|(st & k & v & _ & _ & O4 & _)]; intros c st0 Hl.
       - rewrite O2 in Hl. eapply HB; exact Hl.
       - rewrite O4 in Hl. apply zlookup_zremove_some in Hl. eapply HB; exact Hl. }
     destruct (IH s1 b1 Hnext W1 W2 HB1) as (I1 & I2 & I3 & new & I4 & I5 & I6).
     split; [exact I1|]. split; [exact I2|]. split; [exact I3|].
-    destruct W3 as [(O1 & O2 & O3)|(st & v & O1 & O3 & O4 & O5)].
+    destruct W3 as [(O1 & O2 & O3)|(st & k & v & O1 & O3 & O4 & O5)].
     + exists new. rewrite I4, O1. split; [reflexivity|]. split.
       * rewrite <- (async_returns_blk b b1 new) by (intros c f _; rewrite O2; reflexivity).
         intros db k x Hd. specialize (O3 db k x Hd). specialize (I5 db k x Hd). rewrite ecount_nil in O3. lia.
       * intros c f Hin. right. eapply I6; exact Hin.
-    + exists ((u_conn u, FArray [FBulk (u_key u); FBulk v]) :: new). rewrite I4, O3.
+    + exists ((u_conn u, FArray [FBulk k; FBulk v]) :: new). rewrite I4, O3.
       split; [cbn [rev]; rewrite <- app_assoc; reflexivity|]. split.
-      * change ((u_conn u, FArray [FBulk (u_key u); FBulk v]) :: new) with ([(u_conn u, FArray [FBulk (u_key u); FBulk v])] ++ new).
+      * change ((u_conn u, FArray [FBulk k; FBulk v]) :: new) with ([(u_conn u, FArray [FBulk k; FBulk v])] ++ new).
         rewrite async_returns_app.
-        assert (E1 : async_returns b [(u_conn u, FArray [FBulk (u_key u); FBulk v])] = [(bl_db st, u_key u, v)]).
+        assert (E1 : async_returns b [(u_conn u, FArray [FBulk k; FBulk v])] = [(bl_db st, k, v)]).
         { unfold async_returns. cbn [flat_map fst snd]. rewrite O1. reflexivity. }
         rewrite E1. rewrite <- (async_returns_blk b b1 new).
-        -- intros db k x Hd. specialize (O5 db k x Hd). specialize (I5 db k x Hd). rewrite ecount_app. rewrite ecount_nil in *. lia.
+        -- intros db k0 x Hd. specialize (O5 db k0 x Hd). specialize (I5 db k0 x Hd). rewrite ecount_app. rewrite ecount_nil in *. lia.
         -- intros c f Hin. rewrite O4. apply zlookup_zremove_other. intros E. subst c. apply Hnd. eapply I6; exact Hin.
       * intros c f [Hin|Hin]; [injection Hin as <- _; left; reflexivity|right; eapply I6; exact Hin].
 Qed.
@@ -942,7 +1190,7 @@ Qed.
 Lemma cinv_init : cinv (init_server None).
 Proof.
   constructor; try reflexivity.
-  - intros db k. rewrite get_db_init. discriminate.
+  - intros db. rewrite get_db_init. split; [intros k; discriminate|]. split; [reflexivity|intros k e H; discriminate].
   - intros c cn H. discriminate.
   - intros c cn H. discriminate.
 Qed.
@@ -960,7 +1208,7 @@ Proof.
   intros (HR & Hc & CI & HB & HE) Hok. pose proof (ok_cons_ok _ _ Hok) as Hok1.
   assert (HR' : reach None (step st e)) by (apply reach_step; assumption).
   destruct st as [s b]. cbn [fst snd] in *.
-  destruct (reach_inv None _ HR) as [Hi|(HA & H0)]; [cbn [snd] in Hi; congruence|]. cbn [fst snd] in *.
+  destruct (reach_inv None _ HR) as [Hi|(HA & H0 & HO & HD)]; [cbn [snd] in Hi; congruence|]. cbn [fst snd] in *.
   unfold ginv. split; [exact HR'|]. clear HR'.
   assert (Fin : forall s' b', b_crashed b' = false -> cinv s' -> BR b' ->
             delta s s' (pushed_in (s, b) e) (returned_in (s, b) e) ->
@@ -971,15 +1219,17 @@ Proof.
   { intros s' b' F1 F2 F3 F4 F5. rewrite F5. cbn [fst snd]. split; [exact F1|]. split; [exact F2|]. split; [exact F3|].
     intros db k x Hd. rewrite !ecount_app. specialize (F4 db k x Hd). specialize (HE db k x Hd). lia. }
   unfold ok_cons in Hok. apply andb_true_iff in Hok. destruct Hok as [_ Hok2].
-  destruct e as [now c f oms| |now|c|c].
+  destruct e as [now c f oms|now|now|c|c|].
   - (* a request *)
     cbn [ok] in Hok1. destruct (zlookup c (s_conns s)) as [cn|] eqn:Hcn; [|discriminate].
     apply andb_true_iff in Hok1. destruct Hok1 as [Hnb Hq].
     apply negb_true_iff in Hnb. apply is_blocked_false in Hnb.
+    pose proof (live_no_wake s b c cn HO Hcn Hnb) as Hnw.
+    assert (Hc0 : c <> 0) by (intros E0; subst c; congruence).
     destruct (bprocess_frame now s b c f None oms) as [[rep s'] b1] eqn:E.
-    destruct (bprocess_frame_inv _ _ _ _ _ _ _ _ _ _ _ HA H0 Hcn Hnb E) as (G1 & G3 & G4 & G5 & G6).
-    destruct (bprocess_frame_delta _ _ _ _ _ _ _ _ _ _ CI Hcn Hok2 E) as (D1 & D2).
-    pose proof (bprocess_frame_blk_db _ _ _ _ _ _ _ _ _ _ _ Hcn E) as D3.
+    destruct (bprocess_frame_inv _ _ _ _ _ _ _ _ _ _ _ HA H0 Hcn Hnb Hnw E) as (G1 & G3 & G4 & G5 & G6).
+    destruct (bprocess_frame_delta _ _ _ _ _ _ _ _ _ _ CI Hc0 Hcn Hok2 E) as (D1 & D2).
+    pose proof (bprocess_frame_blk_db _ _ _ _ _ _ _ _ _ _ _ HA Hcn E) as D3.
     apply (Fin s' (match rep with FNoResponse => b1 | _ => emit b1 c rep end)).
     + destruct rep; exact (eq_trans G4 Hc).
     + exact D1.
@@ -990,10 +1240,10 @@ Proof.
   - (* wake-ups *)
     assert (HA' : agreeW (with_wake b (skipn 32 (b_wake b))) (firstn 32 (b_wake b) ++ b_wake (with_wake b (skipn 32 (b_wake b))))).
     { cbn [with_wake b_wake]. unfold agreeW. rewrite firstn_skipn. apply agreeW_self in HA. unfold agreeW in HA. destruct b; exact HA. }
-    destruct (wake_fold_cons (firstn 32 (b_wake b)) s (with_wake b (skipn 32 (b_wake b))) HA' Hc CI HB) as (W1 & W2 & W3 & new & W4 & W5 & _).
+    destruct (wake_fold_cons now (firstn 32 (b_wake b)) s (with_wake b (skipn 32 (b_wake b))) HA' Hc CI HB) as (W1 & W2 & W3 & new & W4 & W5 & _).
     cbn [with_wake b_out] in W4.
-    destruct (fold_left wake_step (firstn 32 (b_wake b)) (s, with_wake b (skipn 32 (b_wake b)))) as [s' b'] eqn:Ef. cbn [fst snd] in *.
-    assert (Hstep : step (s, b) EWakeups = (s', b')) by (cbn [step]; rewrite Hc; unfold process_wakeups; exact Ef).
+    destruct (fold_left (wake_step now) (firstn 32 (b_wake b)) (s, with_wake b (skipn 32 (b_wake b)))) as [s' b'] eqn:Ef. cbn [fst snd] in *.
+    assert (Hstep : step (s, b) (EWakeups now) = (s', b')) by (cbn [step]; rewrite Hc; unfold process_wakeups; exact Ef).
     apply (Fin s' b'); try assumption.
     unfold pushed_in, returned_in. rewrite Hstep. cbn [fst snd]. rewrite (new_out_spec b b' new W4).
     rewrite (async_returns_blk (with_wake b (skipn 32 (b_wake b))) b new) by reflexivity. exact W5.
@@ -1015,13 +1265,23 @@ Proof.
         rewrite zlookup_zset_other by exact Hne. apply C5.
     + apply delta_same. reflexivity.
     + cbn [step]. rewrite Hc. reflexivity.
-  - (* disconnect (of a connection that is not blocked) *)
-    apply (Fin (del_conn s c) (if is_blocked b c then with_dead b (c :: b_dead b) else with_reg b (unregister_all (b_reg b) c))).
-    + destruct (is_blocked b c); exact Hc.
+  - (* a client goes away, blocked or not *)
+    apply (Fin (del_conn s c) (with_dead b (c :: b_dead b))).
+    + exact Hc.
     + destruct CI as [C1 C2 C3 C4 C5]. constructor; cbn [del_conn s_dbs s_conns s_password]; try assumption.
       * intros c' cn' Hl. apply zlookup_zremove_some in Hl. eapply C3; exact Hl.
       * intros c' cn' Hl. apply zlookup_zremove_some in Hl. eapply C5; exact Hl.
-    + destruct (is_blocked b c); exact HB.
+    + exact HB.
+    + apply delta_same. reflexivity.
+    + cbn [step]. rewrite Hc. reflexivity.
+  - (* the server notices the clients that went away *)
+    unfold reap_dead in *.
+    destruct (drop_fold (filter (noticed b) (b_dead b)) (with_dead b (filter (fun c => negb (noticed b c)) (b_dead b)))) as (_ & _ & _ & D4 & _ & D6).
+    cbn [with_dead b_crashed b_blk] in D4, D6.
+    apply (Fin s (reap_dead b)).
+    + unfold reap_dead. congruence.
+    + exact CI.
+    + intros c' st' Hl. unfold reap_dead in Hl. rewrite D6 in Hl. destruct (existsb _ _); [discriminate|]. eapply HB; exact Hl.
     + apply delta_same. reflexivity.
     + cbn [step]. rewrite Hc. reflexivity.
 Qed.
@@ -1061,6 +1321,19 @@ Proof. intros H db k x Hd. rewrite (conservation _ _ _ H db k x Hd). pose proof 
 (** the event loop does not end; every stored value is a list *)
 Theorem no_crash st P R : reach_g st P R -> b_crashed (snd st) = false.
 Proof. intros H. destruct (reach_g_ginv _ _ _ H) as (_ & Hc & _). exact Hc. Qed.
+(** no key of these histories ever has a deadline: the lazy expiry that runs before every
+    command (and at the top of wake_client) removes nothing, so the equation needs no
+    "expired" term *)
+Theorem no_deadlines st P R : reach_g st P R ->
+  (forall db k e, get_entry (get_db (fst st) db) k = Some e -> e_exp e = None) /\
+  (forall now dbi name parts, s_dbs (lazy_expire now (fst st) dbi name parts) = s_dbs (fst st)) /\
+  (forall now db k, fst (purge_key now (get_db (fst st) db, []) k) = get_db (fst st) db).
+Proof.
+  intros H. destruct (reach_g_ginv _ _ _ H) as (_ & _ & CI & _).
+  split; [intros db k e; apply (proj2 (proj2 (ci_all _ CI db)))|].
+  split; [intros now dbi name parts; apply lazy_expire_noexp; exact (proj2 (ci_all _ CI dbi))|].
+  intros now db k. rewrite purge_noexp by (exact (proj2 (ci_all _ CI db))). reflexivity.
+Qed.
 
 Lemma gtrace_reach : forall evs st P R, reach_g st P R -> all_ok_cons st evs = true ->
   reach_g (fst (fst (gtrace st P R evs))) (snd (fst (gtrace st P R evs))) (snd (gtrace st P R evs)).
